@@ -116,7 +116,7 @@ func OddProfile(r *rand.Rand) *profile.Profile {
 }
 
 var boolFields = []string{"call_tree", "relative_percentages", "compact_labels", "intel_syntax", "mean", "normalize", "drop_negative", "trim", "noinlines", "showcolumns"}
-var strFields = []string{"unit", "source_path", "trim_path", "sample_index", "tagroot", "tagleaf", "focus", "ignore", "prune_from", "hide", "show", "show_from", "tagfocus", "tagignore", "tagshow", "taghide"}
+var strFields = []string{"buildid", "unit", "source_path", "trim_path", "sample_index", "tagroot", "tagleaf", "focus", "ignore", "prune_from", "hide", "show", "show_from", "tagfocus", "tagignore", "tagshow", "taghide"}
 var numFields = []string{"nodecount", "nodefraction", "edgefraction", "divide_by"}
 var hostileVals = []string{strings.Repeat("主函数", 10), "main|" + strings.Repeat("é", 42), strings.Repeat("😀", 24), strings.Repeat("a", 79), strings.Repeat("a", 81), strings.Repeat("ü", 40) + "x", "", "(", "[", "1e400", "NaN", "-1", "0", "99999999999999999999", "ünï", "frobs", "a,b", "k=1kb:2kb", "1:2", ":", "x99999999999999999999", "-5mb:", "t0", "9", ".*", "\\", "a|", "k=", "=", "1kb:1gb", "+5", "5x:6y", "\x00"}
 var formats = []string{"comments", "disasm", "dot", "list", "peek", "raw", "tags", "text", "top", "traces", "tree", "callgrind", "proto", "topproto", "svg", "png", "gif", "pdf", "ps"}
@@ -196,6 +196,13 @@ func runCLI(c *harness.Ctx) harness.Result {
 		}
 		if r.Intn(4) == 0 {
 			sesn.Obj = &binutils.Binutils{}
+			if exe := filepath.Join(os.Getenv("VERIF_BIN"), "pprof"); r.Intn(3) == 0 && !strings.HasPrefix(srcs[0], "http") {
+				if _, err := os.Stat(exe); err == nil {
+					// "pprof <binary> <profile>": an executable named before the profile
+					sesn.Flags.Args = append([]string{exe}, sesn.Flags.Args...)
+					c.Stat("cli_with_executable", 1)
+				}
+			}
 		}
 		_ = obj
 		rr := sesn.Run()
